@@ -543,7 +543,10 @@ def sylvester_kpm_problem(seed):
 
 def eval_sylvester_kpm(seed):
     """solve_sylvester_KPM: E_a v - v h0 = y P  on the complement of the explicit vectors, within the
-    requested accuracy (unless the convergence warning was emitted), with and without auxiliary vectors."""
+    requested accuracy (unless the convergence warning was emitted), with and without auxiliary vectors.
+    Every problem is presented twice, h0 as a dense ndarray and as a sparse array: the two presentations
+    of the same matrix must agree, and a convergence warning for one presentation only is a failure
+    (the clause "or with a convergence warning" is about the problem, not about the container type)."""
     p = sylvester_kpm_problem(seed)
     rs = np.random.default_rng(seed + 1)
     n, sizes, V, h0 = p["n"], p["sizes"], p["V"], p["h0"]
@@ -551,47 +554,71 @@ def eval_sylvester_kpm(seed):
     offs = np.cumsum([0] + sizes)
     vecs = [V[:, offs[i]:offs[i + 1]] for i in range(nb)]
     P = np.eye(n) - V[:, :nexp] @ V[:, :nexp].conj().T
-    fails = []
-    with warnings.catch_warnings(record=True) as w:
-        warnings.simplefilter("always")
-        try:
-            h0_arg = np.array(h0) if p["dense"] else sp.csr_array(h0)
-            if p["opts"] is None:
-                solve = impl_bd.solve_sylvester_KPM(h0_arg, vecs)
-            else:
-                solve = impl_bd.solve_sylvester_KPM(h0_arg, vecs, solver_options=dict(p["opts"]))
-        except Exception as e:
-            return ["solve_sylvester_KPM raised %s: %s" % (type(e).__name__, e)], p
-        try:
-            if solve(zero, (0, nb)) is not zero:
-                fails.append("solve_sylvester_KPM does not map the zero sentinel to zero")
-            for i in range(nb):  # explicit-explicit blocks go through the diagonal solver
-                for j in range(nb):
+    Yds = {(i, j): rand_c(rs, (sizes[i], sizes[j]), p["cplx"]) for i in range(nb) for j in range(nb)}
+    Ys = [rand_c(rs, (sizes[i], n), p["cplx"]) @ P for i in range(nb)]
+    atol = (p["opts"] or dict(atol=1e-5))["atol"]
+
+    def present(dense):
+        fails, sols = [], {}
+        with warnings.catch_warnings(record=True) as w:
+            warnings.simplefilter("always")
+            try:
+                h0_arg = np.array(h0) if dense else sp.csr_array(h0)
+                if p["opts"] is None:
+                    solve = impl_bd.solve_sylvester_KPM(h0_arg, vecs)
+                else:
+                    solve = impl_bd.solve_sylvester_KPM(h0_arg, vecs, solver_options=dict(p["opts"]))
+            except Exception as e:
+                return ["solve_sylvester_KPM raised %s: %s" % (type(e).__name__, e)], False, sols
+            try:
+                if solve(zero, (0, nb)) is not zero:
+                    fails.append("solve_sylvester_KPM does not map the zero sentinel to zero")
+                for (i, j), Yd in Yds.items():  # explicit-explicit blocks go through the diagonal solver
                     Ei_, Ej_ = np.array(p["levels"][offs[i]:offs[i + 1]]), np.array(p["levels"][offs[j]:offs[j + 1]])
-                    Yd = rand_c(rs, (sizes[i], sizes[j]), p["cplx"])
                     Vd = np.asarray(solve(Yd.copy(), (i, j)))
                     dE = Ei_[:, None] - Ej_[None, :]
                     mask = np.abs(dE) > 1e-3
                     if not (np.allclose((dE * Vd)[mask], Yd[mask], rtol=1e-9, atol=1e-9) and np.abs(Vd[~mask]).max(initial=0) == 0):
                         fails.append("solve_sylvester_KPM explicit block (%d,%d): (E_a - E_b) V_ab != Y_ab" % (i, j))
-        except Exception as e:
-            fails.append("solve_sylvester_KPM explicit blocks / zero raised %s: %s" % (type(e).__name__, e))
-        for i in range(nb):
-            Ei = np.array(p["levels"][offs[i]:offs[i + 1]])
-            Y = rand_c(rs, (sizes[i], n), p["cplx"]) @ P
-            try:
-                Vs = np.asarray(solve(Y.copy(), (i, nb)))
             except Exception as e:
-                fails.append("solve_sylvester_KPM index (%d, implicit) raised %s: %s" % (i, type(e).__name__, e))
-                continue
-            res = np.abs(Ei[:, None] * Vs - Vs @ h0 - Y).max()
-            res2 = np.abs(Vs @ P - Vs).max()
-            bound = 1e3 * (p["opts"] or dict(atol=1e-5))["atol"] * (1 + np.abs(Y).max())
-            if not (res <= bound and res2 <= bound):
-                fails.append("solve_sylvester_KPM index (%d, implicit), auxiliary vectors %s: residual %.3g, |V P - V| = %.3g (bound %.3g)" % (i, p["aux"], res, res2, bound))
-    if any(issubclass(x.category, RuntimeWarning) and "did not converge" in str(x.message) for x in w):
-        fails = [f for f in fails if " raised " in f]
-    return fails, p
+                fails.append("solve_sylvester_KPM explicit blocks / zero raised %s: %s" % (type(e).__name__, e))
+            for i in range(nb):
+                Ei = np.array(p["levels"][offs[i]:offs[i + 1]])
+                Y = Ys[i]
+                try:
+                    Vs = np.asarray(solve(Y.copy(), (i, nb)))
+                except Exception as e:
+                    fails.append("solve_sylvester_KPM index (%d, implicit) raised %s: %s" % (i, type(e).__name__, e))
+                    continue
+                sols[i] = Vs
+                res = np.abs(Ei[:, None] * Vs - Vs @ h0 - Y).max()
+                res2 = np.abs(Vs @ P - Vs).max()
+                bound = 1e3 * atol * (1 + np.abs(Y).max())
+                if not (res <= bound and res2 <= bound):
+                    fails.append("solve_sylvester_KPM index (%d, implicit), auxiliary vectors %s: residual %.3g, |V P - V| = %.3g (bound %.3g)" % (i, p["aux"], res, res2, bound))
+        warned = any(issubclass(x.category, RuntimeWarning) and "did not converge" in str(x.message) for x in w)
+        if warned:  # accuracy is promised only without the warning
+            fails = [f for f in fails if " raised " in f]
+        return fails, warned, sols
+
+    out = []
+    res = {}
+    order = (True, False) if p["dense"] else (False, True)
+    for dense in order:
+        fs, warned, sols = present(dense)
+        res[dense] = (warned, sols)
+        tag = "dense" if dense else "sparse"
+        kind = "%s %s h0" % ("complex Hermitian" if p["cplx"] else "real symmetric", tag)
+        out += ["[%s] %s" % (kind, f) for f in fs]
+    (wd, sd), (ws, ss) = res[True], res[False]
+    if wd != ws:
+        out.append("convergence RuntimeWarning for the %s presentation only (%s h0, n = %d): the same matrix converges when given as %s"
+                   % ("dense" if wd else "sparse", "complex Hermitian" if p["cplx"] else "real symmetric", n, "sparse" if wd else "dense"))
+    elif not wd:
+        for i in sd:
+            if i in ss and not np.abs(sd[i] - ss[i]).max() <= 2e3 * atol * (1 + np.abs(Ys[i]).max()):
+                out.append("dense and sparse presentations of the same h0 give different solutions for block (%d, implicit): %.3g apart" % (i, np.abs(sd[i] - ss[i]).max()))
+    return out, p
 
 
 def eval_rescale(seed):
@@ -704,6 +731,8 @@ def oracle_kpm(ctx, n=None):
         feats.add(("sylvester", tuple(p["sizes"]), len(p["aux"]) > 0, "max_moments" in o, "eps" in o, p["cplx"], p["opts"] is None, p["dense"]))
         for f in fs[:1]:
             fails.append(dict(what=f, input=dict(oracle="kpm_sylvester", seed=seed)))
+        if sum(1 for f in fails if f["input"].get("oracle") == "kpm_sylvester") >= 3:
+            break  # enough failing inputs; a non-converging solver makes every further case slow
     nres = ctx.n(40, 600)
     for i in range(nres):
         seed = rng.randrange(2**31)
